@@ -909,11 +909,15 @@ def _check_params(case, ctx):
         def json_targets():
             j1 = _roundtrips(run, "", sp, _img_params, SimulationParameters,
                              tags)
-            if list(j1.unpacked_parameters) != sorted(marked):
+            # derived quantities are only judged when the field-by-field
+            # comparison found nothing (otherwise they repeat that finding)
+            if run.pending:
+                pass
+            elif list(j1.unpacked_parameters) != sorted(marked):
                 raise Violation("json_roundtrip", "unpacked marks %r, "
                                 "expected %r" % (j1.unpacked_parameters,
                                                  sorted(marked)), tags)
-            if j1.get_num_unpacked_variations() != nvar:
+            elif j1.get_num_unpacked_variations() != nvar:
                 raise Violation("json_roundtrip", "number of variations %r, "
                                 "expected %r" % (
                                     j1.get_num_unpacked_variations(), nvar),
@@ -922,8 +926,9 @@ def _check_params(case, ctx):
                 ch = children[ci]
                 c1 = _roundtrips(run, "_child", ch, _img_params,
                                  SimulationParameters, tags)
-                if c1.unpack_index != ci or \
-                        c1.get_num_unpacked_variations() != nvar:
+                if not run.pending and (
+                        c1.unpack_index != ci or
+                        c1.get_num_unpacked_variations() != nvar):
                     raise Violation("json_roundtrip_child", "unpack index %r "
                                     "/ variations %r, expected %d / %d" % (
                                         c1.unpack_index,
